@@ -216,7 +216,20 @@ const SHAPES: &[&str] = &[
 ];
 
 /// Where the shape is placed.
-const PLACEMENTS: &[&str] = &["top", "block", "child-block-super", "component-body", "include"];
+/// The last four put the shape where the fused write has another destination or another branch:
+/// an autoescaped template (the escaping branch of WritePath), one capture, two nested captures
+/// (seeded change C09-5: the escaping branch of WritePath wrote into the OUTERMOST capture).
+const PLACEMENTS: &[&str] = &[
+    "top",
+    "block",
+    "child-block-super",
+    "component-body",
+    "include",
+    "top-autoescaped",
+    "filter-section",
+    "set-block-in-filter-section-autoescaped",
+    "call-body-in-set-block-autoescaped",
+];
 
 fn fill(shape: &str, f: [&str; 3]) -> String {
     shape.replace("@1", f[0]).replace("@2", f[1]).replace("@3", f[2])
@@ -256,6 +269,25 @@ fn place(body: &str, placement: &str) -> Program {
             ],
             entry: "t.txt".into(),
         },
+        "top-autoescaped" => Program { templates: vec![("t.html".into(), body.into())], entry: "t.html".into() },
+        "filter-section" => Program {
+            templates: vec![("t.txt".into(), format!("<{{% filter upper %}}{body}{{% endfilter %}}>"))],
+            entry: "t.txt".into(),
+        },
+        "set-block-in-filter-section-autoescaped" => Program {
+            templates: vec![(
+                "t.html".into(),
+                format!("<{{% filter upper %}}o{{% set zc %}}{body}{{% endset %}}[{{{{ zc }}}}]{{% endfilter %}}>"),
+            )],
+            entry: "t.html".into(),
+        },
+        "call-body-in-set-block-autoescaped" => Program {
+            templates: vec![(
+                "t.html".into(),
+                format!("{{% component W() %}}({{{{ body }}}}){{% endcomponent W %}}<{{% set zo %}}o{{% <W> %}}{body}{{% </W> %}}{{% endset %}}[{{{{ zo }}}}]>"),
+            )],
+            entry: "t.html".into(),
+        },
         _ => unreachable!(),
     }
 }
@@ -278,6 +310,8 @@ fn contexts() -> Vec<(String, Context)> {
         ("a=\"s\"", V::s("s")),
         // a map that *stores* an undefined value (Value::undefined() put in by the embedder, or a
         // map literal built from a missing variable): the key exists, its value is undefined
+        // characters the escaper rewrites (the autoescaped placements)
+        ("a={b:{c:<&>}}", V::map(&[("b", V::map(&[("c", V::s("<&>"))]))])),
         ("a={b:undefined}", V::map(&[("b", V::Undef)])),
         ("a={b:{c:undefined}}", V::map(&[("b", V::map(&[("c", V::Undef)]))])),
     ] {
